@@ -106,11 +106,24 @@ func (c CaseFL) line() []byte {
 			w.WriteByte('7')
 			sp()
 			w.Write(f.Reason)
-		case "nondigit-code":
+		case "nondigit-code", "nondigit-code-0", "nondigit-code-1", "nondigit-code-lo-0", "nondigit-code-lo-1", "nondigit-code-lo-2":
+			// one of the three code characters is not a digit: just above '9' / a letter, or just below '0'
+			code := append([]byte{}, f.Code...)
+			pos := 2
+			switch c.Miss {
+			case "nondigit-code-0", "nondigit-code-lo-0":
+				pos = 0
+			case "nondigit-code-1", "nondigit-code-lo-1":
+				pos = 1
+			}
+			repl := []byte{'x', ':'}[int(f.Code[0]-'0')%2]
+			if len(c.Miss) > 15 && c.Miss[:16] == "nondigit-code-lo" {
+				repl = '/'
+			}
+			code[pos] = repl
 			w.Write(f.Ver)
 			sp()
-			w.Write(f.Code[:2])
-			w.WriteByte('x')
+			w.Write(code)
 			sp()
 			w.Write(f.Reason)
 		case "no-space-after-code":
@@ -187,6 +200,9 @@ func evalFL(c CaseFL) Result {
 		if c.Msg {
 			if e == 0 || e == sipsp.ErrHdrNoCLen || e == sipsp.ErrHdrMoreBytes || fl.Parsed() {
 				return viol("near-miss %q accepted by ParseSIPMsg: (%d, %v), first line parsed=%v\nline=%s", c.Miss, o, e, fl.Parsed(), B(line))
+			}
+			if !msg.Err() || msg.Parsed() {
+				return viol("near-miss %q rejected with %v but Err()=%v Parsed()=%v (documented: Err() is true if parsing failed)\nline=%s", c.Miss, e, msg.Err(), msg.Parsed(), B(line))
 			}
 		} else if e == 0 || e == sipsp.ErrHdrMoreBytes {
 			return viol("near-miss %q not rejected by ParseFLine: (%d, %v)\nline=%s", c.Miss, o, e, B(line))
@@ -273,7 +289,8 @@ func evalFL(c CaseFL) Result {
 }
 
 var reqMisses = []string{"double-space-1", "double-space-2", "tab-1", "tab-2", "missing-token", "extra-token", "leading-space", "trailing-space", "trailing-tab"}
-var rplMisses = []string{"two-digit-code", "four-digit-code", "nondigit-code", "no-space-after-code", "double-space-code", "tab-after-code"}
+var rplMisses = []string{"two-digit-code", "four-digit-code", "nondigit-code", "nondigit-code-0", "nondigit-code-1", "nondigit-code-lo-0",
+	"nondigit-code-lo-1", "nondigit-code-lo-2", "no-space-after-code", "double-space-code", "tab-after-code"}
 
 func flTail(t *rapid.T) B {
 	return B(pick(t, "tail", "Via: SIP/2.0/UDP h\r\n\r\n", "X: y\r\nContent-Length: 0\r\n\r\n", "aaaaaaaaaaaaaaaa: b\r\n\r\n", "f: <sip:a@b>\n\n"))
@@ -322,6 +339,14 @@ func enumStatusLines(emit func(CaseFL) bool) {
 						return
 					}
 				}
+			}
+		}
+		// every non-digit placement for this code
+		for _, miss := range []string{"nondigit-code", "nondigit-code-0", "nondigit-code-1", "nondigit-code-lo-0", "nondigit-code-lo-1", "nondigit-code-lo-2", "two-digit-code", "four-digit-code"} {
+			c := CaseFL{FL: FLSpec{Ver: B("SIP/2.0"), Code: B(fmt.Sprintf("%03d", code)), Reason: B("xOK"), EOL: B("\r\n")},
+				Tail: B("Via: SIP/2.0/UDP h\r\n\r\n"), Msg: code%2 == 1, Miss: miss}
+			if !emit(c) {
+				return
 			}
 		}
 	}
